@@ -205,7 +205,7 @@ package transports
 //@   requires p != nil && p.Transport != nil && ctx != nil && ctx.request != nil && ctx.headers != nil && ctx.ResponseHeaders != nil && ctx.response != nil && ctx.EventEmitter != nil
 //@   modifies *
 //@   let overlap   = old(p.dataCtx.v) != nil
-//@   let isBinary  = uf_s_peek(ctx.headers, "Content-Type", old(ctx.headers.$bagver)) == "application/octet-stream"
+//@   let isBinary  = old(bagPeek(ctx.headers, "Content-Type")) == "application/octet-stream"
 //@   let v4binary  = isBinary && old(p.Transport.$protocol) == 4
 //@   let tooLarge  = old(ctx.request.ContentLength) > old(p.Transport.$maxbuf)
 //@   ensures [C11.dataoverlap] overlap ==> calls(Transport.OnError) == 1 && arg(Transport.OnError, 1, msg) == "data request overlap from client" && arg((*types.HttpContext).SetStatusCode, 1, statusCode) == 400 && calls((*types.HttpContext).Write) == 1 && calls(Transport.OnData) == 0
@@ -402,7 +402,7 @@ package transports
 //@   ensures [C16.off]       !wanted ==> calls((*polling).compress) == 0 && calls(respond) == 1 && arg(respond, 1, data) == data && ncalls((*utils.ParameterBag).Set, key == "Content-Encoding") == 0
 //@   ensures [C16.gated]     calls((*polling).compress) == 1 ==> wanted && ret(types.BufferInterface.Len, 1) >= old(hc.Threshold) && ret(utils.Contains, 1) != "" && arg((*polling).compress, 1, encoding) == ret(utils.Contains, 1) && arg((*polling).compress, 1, data) == data
 //@   ensures [C16.threshold] wanted && ret(types.BufferInterface.Len, 1) < old(hc.Threshold) ==> calls((*polling).compress) == 0 && arg(respond, 1, data) == data
-//@   ensures [C16.accept]    calls(utils.Contains) == 1 ==> arg(utils.Contains, 1, haystack) == uf_s_peek(ctx.headers, "Accept-Encoding", old(ctx.headers.$bagver)) && len(arg(utils.Contains, 1, needles)) == 4
+//@   ensures [C16.accept]    calls(utils.Contains) == 1 ==> arg(utils.Contains, 1, haystack) == old(bagPeek(ctx.headers, "Accept-Encoding")) && len(arg(utils.Contains, 1, needles)) == 4
 //@   ensures [C16.nocoding]  calls(utils.Contains) == 1 && ret(utils.Contains, 1) == "" ==> calls((*polling).compress) == 0 && arg(respond, 1, data) == data && ncalls((*utils.ParameterBag).Set, key == "Content-Encoding") == 0
 //@   ensures [C16.compressed] calls((*polling).compress) == 1 && ret((*polling).compress, 1, 1) == nil ==> calls(respond) == 1 && arg(respond, 1, data) == ret((*polling).compress, 1, 0) && ncalls((*utils.ParameterBag).Set, key == "Content-Encoding" && value == ret(utils.Contains, 1)) == 1
 //@   ensures [C16.compressfail] calls((*polling).compress) == 1 && ret((*polling).compress, 1, 1) != nil ==> calls(respond) == 0 && calls((*types.HttpContext).Write) == 1 && arg((*types.HttpContext).SetStatusCode, 1, statusCode) == 500 && calls(callback) == 1 && arg(callback, 1, 0) == ret((*polling).compress, 1, 1)
@@ -445,9 +445,10 @@ package transports
 
 //@ func (*polling).headers(ctx, headers)
 //@   props C17, C16
-//@   requires p != nil && p.Transport != nil && ctx != nil && headers != nil
+//@   requires p != nil && p.Transport != nil && ctx != nil && ctx.headers != nil && headers != nil
 //@   modifies *
-//@   ensures [C17.headers.once] emitted(p.Transport, "headers") == 1 && result == headers
+//@   ensures [C17.headers.once] emitted(p.Transport, "headers") == 1
+//@   ensures [C17.headers.same] result == headers
 //@   ensures [C16.nostore]      ncalls((*utils.ParameterBag).Set, key == "Cache-Control" && value == "no-store") == 1
 
 // ---- JSONP polling (C16 wrapper, C02 un-escaping) ---------------------------------------------------------------------
@@ -465,7 +466,7 @@ package transports
 //@   modifies *
 //@   ensures [C16.jsonp.head] j.head == concat(concat("___eio[", ret((*regexp.Regexp).ReplaceAllString, 1)), "](") && j.foot == ");"
 //@   callsite (*regexp.Regexp).ReplaceAllString#1
-//@     assert [C16.jsonp.digits] $re == rNumber && $repl == "" && $src == uf_s_peek(ctx.query, "j", ctx.query.$bagver)
+//@     assert [C16.jsonp.digits] $re == rNumber && $repl == "" && $src == bagPeek(ctx.query, "j")
 
 // the body is one JSON string literal (script-safe escaping of the encoder left on) between head and foot
 //@ func (*jsonp).DoWrite(ctx, data, options, callback)
@@ -555,10 +556,10 @@ package transports
 //@   props C06
 //@   requires t != nil && ctxOK(ctx)
 //@   modifies t.parser, t.protocol, t.supportsBinary
-//@   let eio4 = uf_b_has(ctx.query, "EIO", ctx.query.$bagver) && uf_s_peek(ctx.query, "EIO", ctx.query.$bagver) == "4"
+//@   let eio4 = bagHas(ctx.query, "EIO") && bagPeek(ctx.query, "EIO") == "4"
 //@   ensures [C06.t.parser,C09.revisionagrees] (eio4 ==> t.parser == ret(parser.Parserv4, 1)) && (!eio4 ==> t.parser == ret(parser.Parserv3, 1))
 //@   ensures [C06.t.rev]    t.protocol == ret(parser.Parser.Protocol, 1) && arg(parser.Parser.Protocol, 1, this) == t.parser
-//@   ensures [C06.t.b64]    t.supportsBinary == !uf_b_has(ctx.query, "b64", ctx.query.$bagver)
+//@   ensures [C06.t.b64]    t.supportsBinary == !bagHas(ctx.query, "b64")
 
 // ---- refinement: the Transport model fields are the state of the base transport every transport is built on; each base
 // method is proved against the model contract of the interface method it implements -----------------------------------
